@@ -84,12 +84,14 @@ partial def v6Loop (s : List Nat) (i : Nat) (ip : Array Nat) (ellipsis : Option 
               else v6Loop r2 i ip (some i)
             else v6Loop r1 i ip ellipsis
 
-/-- `parseIPv6`: the 16 bytes (the zone only decides success). -/
-def parseV6 (input : List Nat) : Option (List Nat) :=
-  let (s, zoneOK) :=
+/-- `parseIPv6`: the 16 bytes and the zone (everything after the first `%`; an explicit zone must not
+be empty). -/
+def parseV6z (input : List Nat) : Option (List Nat × List Nat) :=
+  let (s, zone, zoneOK) :=
     match input.idxOf? 37 with
-    | some k => (input.take k, decide (input.length > k + 1))
-    | none => (input, true)
+    | some k => (input.take k, input.drop (k + 1), decide (input.length > k + 1))
+    | none => (input, [], true)
+  (fun ip => (ip, zone)) <$>
   if !zoneOK then none else
   let (s, ellipsis, unspecified) :=
     match s with
@@ -108,6 +110,32 @@ def parseV6 (input : List Nat) : Option (List Nat) :=
         some (l.take e ++ List.replicate (16 - i) 0 ++ l.drop e)
     else if ellipsis.isSome then none
     else some ip.toList
+
+def parseV6 (input : List Nat) : Option (List Nat) := (parseV6z input).map (·.1)
+
+def is4in6 (ip : List Nat) : Bool := ip.take 10 == List.replicate 10 0 && (ip.drop 10).take 2 == [255, 255]
+
+/-- `isIPv6LinkLocal` (addr.go) on the 16 bytes of an address that is not IPv4-mapped:
+`IsLinkLocalUnicast` (fe80::/10) or `IsLinkLocalMulticast` (ffx2::/16). -/
+def isLinkLocal6 (ip : List Nat) : Bool :=
+  let hi := ip.getD 0 0
+  let lo := ip.getD 1 0
+  (hi == 254 && lo / 64 == 2) || (hi == 255 && lo % 16 == 2)
+
+/-- `canonicalAddr(netip.ParseAddr(s))` as a key: `none` = parse error; an IPv4 or IPv4-mapped address
+is its 4 bytes (`Unmap()` also drops the zone); any other IPv6 address is its 16 bytes, followed by `%`
+and the zone if the address is link-local and has one. -/
+def canon (s : List Nat) : Option (List Nat) :=
+  match s.find? (fun c => c == 46 || c == 58 || c == 37) with
+  | some 46 => parseV4 s
+  | some 58 =>
+    match parseV6z s with
+    | none => none
+    | some (ip, zone) =>
+      if is4in6 ip then some (ip.drop 12)
+      else if isLinkLocal6 ip && !zone.isEmpty then some (ip ++ 37 :: zone)
+      else some ip
+  | _ => none
 
 /-- `netip.ParseAddr(s)` then `Unmap().Is4()`: 0 = error, 4 = IPv4 or IPv4-mapped IPv6, 6 = other IPv6. -/
 def classify (s : List Nat) : Nat :=
